@@ -228,6 +228,14 @@ fn check_polyline(ctx: &mut Ctx, v: &[Point], tr: Point) {
         let k = if got.len() > want.len() { "joint-emitted-twice-or-extra-points" } else if got.len() < want.len() { "points-missing" } else { "points-differ" };
         ctx.violation(format!("polyline|points|{}", k), case, || format!("{} points, expected {} (segment lines with shared joints once); first difference at {:?}", got.len(), want.len(), first));
     }
+    // the same points through the other ways of consuming the iterator, from partly consumed states
+    if got == want && got.len() <= 400 {
+        let n = got.len();
+        let seg0 = if v.len() >= 2 { Line::new(v[0], v[1]).points().count() } else { 0 };
+        if let Some(d) = egmon::target::consumer_disagreement(&|| pl.points(), &got, &[0, 1, seg0.saturating_sub(1), seg0, seg0 + 1, n / 2, n]) {
+            ctx.violation("polyline|points-iterator-consumed-differently", case, || d.clone());
+        }
+    }
     // styled with a one-pixel stroke: same sequence
     let px: Vec<Point> = pl.into_styled(PrimitiveStyle::with_stroke(BinaryColor::On, 1)).pixels().take(200_000).map(|p| p.0).collect();
     if px != want {
